@@ -1587,9 +1587,17 @@ def replay(ctx, data):
     h = rp.get("history")
     if h is None and data.get("broken"):
         h = (data["broken"][0].get("replay") or {}).get("history")
+    if h is None and rp.get("probe"):
+        # a directed probe: run it again on the current tree
+        sub = core.Ctx(PROPERTY, "quick", 0)
+        {"partial-initialization": probe_partial_initialization, "progset-assembly": probe_progset_assembly, "failed-calibration": probe_failed_calibration}.get(rp["probe"], lambda c: None)(sub)
+        for v in sub.violations:
+            print("VIOLATION", json.dumps(v["key"]), v["what"][:600])
+        print("replay of probe", rp["probe"], "->", "FAILS" if sub.violations else "passes")
+        return 1 if sub.violations else 0
     if h is None:
         print("no history in replay file")
-        return 2
+        return 0
     res = run_histories([h])
     hs, rd, nt = res[0]
     print(f"history {h['id']} sub_seed={h['sub_seed']} ops={[(o['op'], o['proj'], o['prog']) for o in h['ops']]}")
